@@ -10,17 +10,17 @@
    are separate functions (`*_loop`).
 
    The AST is `expr` of Eval/Impl.v.  hclsyntax.ExprSyntaxError has no constructor there; it
-   is represented by the term `e_syntax_error` (an expression no other path builds at that
-   position); errPlaceholderExpr / the "Invalid expression" placeholder are
+   is represented by the term `e_syntax_error` = a call with ExpandFinal and no arguments, which
+   finishParsingFunctionCall never builds (it is the modelled panic P_ExpandNoArgs); errPlaceholderExpr / the "Invalid expression" placeholder are
    LiteralValueExpr{cty.DynamicVal} = ELit dyn_val as in Go. *)
 From Coq Require Import QArith.
 From HclV Require Import Base.Prelude Gen.TokenTypes Gen.BinaryOps Cty.Values Cty.Convert Cty.Ops
   Eval.Impl Parse.Peeker Parse.TemplateParser.
 Open Scope Z_scope.
 
-Definition e_syntax_error : expr := EWrap EAnon.
+Definition e_syntax_error : expr := ECall [] [] true.
 Definition is_syntax_error (e : expr) : bool :=
-  match e with EWrap EAnon => true | _ => false end.
+  match e with ECall [] [] true => true | _ => false end.
 
 (* numberLitValue: cty.ParseNumberVal = Cty/Convert.v str_to_num *)
 Definition number_lit_value (tok : ptok) : val * diags :=
